@@ -273,6 +273,43 @@ func closeOnceRule(c *Ctx, rule string, rels []string, floorN int) {
 					})
 				}
 			}
+			// K4'': the probe sits in a helper cut out of this function, called under the lock that is still held
+			if idiom == "" {
+				st := locksAt(fn, held, cl)
+				if len(st) > 0 {
+					eachInstr(fn, func(ins ssa.Instruction) {
+						c2, ok := ins.(*ssa.Call)
+						if !ok || !dominatesInstr(c2, cl) {
+							return
+						}
+						g := staticCallee(&c2.Call)
+						if g == nil || g == fn || !P.OwnedBy(g, fn) {
+							return
+						}
+						stCall := locksAt(fn, held, c2)
+						shared := false
+						for ap := range st {
+							if _, also := stCall[ap]; also {
+								shared = true
+							}
+						}
+						if !shared {
+							return
+						}
+						eachInstr(g, func(gi ssa.Instruction) {
+							sel, ok := gi.(*ssa.Select)
+							if !ok || sel.Blocking {
+								return
+							}
+							for _, sst := range sel.States {
+								if sst.Dir == types.RecvOnly && lastField(sst.Chan) == f && f != nil {
+									idiom = "K4 (channel probed and, if closed, replaced by a helper under the lock that is still held)"
+								}
+							}
+						})
+					})
+				}
+			}
 			// K2: the function runs once per object (single go site, no direct calls) and closes once per run
 			if idiom == "" {
 				gos := goSitesOf(P, fn)
